@@ -88,11 +88,23 @@ def fs_lookup(ex, st, path, op):
         if pc is not None and e.path.concrete() == pc: return e
         if skey(e.path) == key: return e
     i = len(entries)
-    tag = '%s%d' % (fs.get('tag', 'fs'), i)
-    kind = z3.BitVec(ex.fresh(tag + '_kind'), 2)
-    cons = [z3.ULE(kind, 2)]
-    content = SymStr.fresh(ex.fresh(tag + '_data'), cfg['content_cap'], cons)
-    mtime = z3.BitVec(ex.fresh(tag + '_mtime'), 128)
+    if cfg.get('shared_names'):
+        # variable names derived from the path expression itself, so that separate explorations over the same request
+        # symbols talk about the same filesystem
+        import hashlib
+        f_ = path.flat()
+        ser = '|'.join([str(f_.ln) if isinstance(f_.ln, int) else f_.ln.sexpr()] + [str(b) if isinstance(b, int) else b.sexpr() for b in f_.bs])
+        tag = 'fsx_' + hashlib.sha1(ser.encode()).hexdigest()[:12]
+        kind = z3.BitVec(tag + '_kind', 2)
+        cons = [z3.ULE(kind, 2)]
+        content = SymStr.fresh(tag + '_data', cfg['content_cap'], cons, stable_name=True)
+        mtime = z3.BitVec(tag + '_mtime', 128)
+    else:
+        tag = '%s%d' % (fs.get('tag', 'fs'), i)
+        kind = z3.BitVec(ex.fresh(tag + '_kind'), 2)
+        cons = [z3.ULE(kind, 2)]
+        content = SymStr.fresh(ex.fresh(tag + '_data'), cfg['content_cap'], cons)
+        mtime = z3.BitVec(ex.fresh(tag + '_mtime'), 128)
     cons.append(z3.ULT(mtime, 1000000))
     if cfg.get('fixed'):
         # concrete tree given by the harness: dict path bytes -> ('file', bytes) | ('dir',)
@@ -117,8 +129,8 @@ def fs_concrete_lookup(st, path):
     return tree.get(p)
 
 
-def new_fs(content_cap=4, tag='fs', on_new=None, fixed=None):
-    return {'cfg': {'content_cap': content_cap, 'on_new': on_new, 'fixed': fixed}, 'entries': (), 'tag': tag}
+def new_fs(content_cap=4, tag='fs', on_new=None, fixed=None, shared_names=False):
+    return {'cfg': {'content_cap': content_cap, 'on_new': on_new, 'fixed': fixed, 'shared_names': shared_names}, 'entries': (), 'tag': tag}
 
 
 def io_error(): return Opaque('std::io::Error')
